@@ -219,7 +219,12 @@ def run(prop: str, tier: str, seed: int, scratch: Path, replay=None, model_ok=Tr
         cases = fixed_progs() + [gen_prog(rng) for _ in range(COUNTS[tier])]
         cases[0]['with_holiday_probe'] = True
     from concurrent.futures import ThreadPoolExecutor
-    chunks = [cases[i::8] for i in range(8)]
+    # at most 40 programs per interpreter: whenever's SystemDateTime(**kwargs) never frees its result (about 10 MB per
+    # program here), a long-lived runner would hit its address-space limit in the thorough tier
+    if len(cases) <= 8 * 40:
+        chunks = [cases[i::8] for i in range(8)]
+    else:
+        chunks = [cases[i:i + 40] for i in range(0, len(cases), 40)]
     with ThreadPoolExecutor(max_workers=8) as ex:
         parts = list(ex.map(lambda kc: _impl(kc[1], scratch, f'main{kc[0]}'), enumerate(chunks)))
     results = [r for part in parts for r in part]
@@ -268,7 +273,12 @@ def run(prop: str, tier: str, seed: int, scratch: Path, replay=None, model_ok=Tr
 
 def search(prop: str, seed: int, scratch: Path) -> list:
     rng = random.Random(f'search-{prop}-{seed}')
-    results = _impl(fixed_progs() + [gen_prog(rng) for _ in range(1500)], scratch, 'search')
+    from concurrent.futures import ThreadPoolExecutor
+    progs = fixed_progs() + [gen_prog(rng) for _ in range(1500)]
+    chunks = [progs[i:i + 40] for i in range(0, len(progs), 40)]
+    with ThreadPoolExecutor(max_workers=8) as ex:
+        parts = list(ex.map(lambda kc: _impl(kc[1], scratch, f'search{kc[0]}'), enumerate(chunks)))
+    results = [r for part in parts for r in part]
     out = []
     for r in results:
         for msg in oracle(r)[:1]:
